@@ -45,6 +45,8 @@ class Generated:
         self.probed = []
         self.uncontracted = []
         self.binding_seqs = {}     # fn key -> names bound, in order (rule 27)
+        self.constructs = {}       # fn key -> weak-specification constructs its text uses (vx/constructs.py)
+        self.new_constructs = {}   # fn key -> those that the pinned text did not use
         self.renamed = {}          # fn key -> {actual: pinned} alpha-renaming applied     # kept functions (verified with their bodies) that carry no contract      # contracted functions that no longer exist: (file, key, props)
     def text(self):
         return '\n'.join(self.lines) + '\n'
@@ -112,6 +114,19 @@ def generate(unit, repo_src=None, modes=None, probe=False):
             f = File(os.path.join(repo_src, sf.name), src=sf.pre(open(os.path.join(repo_src, sf.name)).read(), c))
         else:
             f = File(os.path.join(repo_src, sf.name))
+        # weak-specification constructs per contracted function, against the pinned sets
+        if sf.fns and hasattr(f, 'fns') and hasattr(f, 'toks'):
+            from . import constructs as _cs
+            pinned_cs = _cs.load().get(unit.name, {})
+            for key_ in sf.fns:
+                fn_ = f.fns.get(key_)
+                if fn_ is None: continue
+                try: cur_ = _cs.of_fn(f, fn_)
+                except Exception: continue
+                g.constructs[key_] = cur_
+                if key_ in pinned_cs:
+                    new_ = [x for x in cur_ if x not in pinned_cs[key_]]
+                    if new_: g.new_constructs[key_] = new_
         # rule 27: alpha-rename pure renames back to the pinned names (before anything else looks at the text)
         if sf.loader is None and sf.fns:
             from . import locals as _loc
